@@ -38,6 +38,7 @@ PROPS = {
     "C14": {"level": "model_checking", "parts": [
         part("history", "stack", "TestVerifC14"),
         part("race", "stack", "TestVerifC14", race=True, gomaxprocs=4, shards=8)]},
+    "C19": {"level": "exploration", "parts": [part("programs", "stack", "TestVerifC19", shards=1, gomaxprocs=8)]},
     "C18": {"level": "exploration", "parts": [part("layouts", "stack", "TestVerifC18")]},
     "C17": {"level": "exploration", "parts": [part("html", "stack", "TestVerifC17")]},
     "C15": {"level": "exploration", "parts": [part("names", "stack", "TestVerifC15")]},
